@@ -1400,14 +1400,7 @@ class SVG:
         self.evenodd_to_nonzero_winding(inplace=True)
         self.normalize_opacity(inplace=True)
         self.absolute(inplace=True)
-        self.round_floats(ndigits, inplace=True)
-
-        # https://github.com/googlefonts/picosvg/issues/269 remove empty subpaths *after* rounding
-        self.remove_empty_subpaths(inplace=True)
-        self.remove_unpainted_shapes(inplace=True)
-        # shapes that just went away (or were only templates in <defs>) may have
-        # been the last users of a gradient
-        self._remove_orphaned_gradients()
+        self._tidy(ndigits)
 
         violations = self.checkpicosvg(
             allow_text=allow_text, drop_unsupported=drop_unsupported
@@ -1415,13 +1408,27 @@ class SVG:
         if violations:
             raise ValueError("Unable to convert to picosvg: " + ",".join(violations))
 
-        # Dropping unpainted shapes or unsupported elements can leave a group
-        # that was kept for its opacity with fewer than two children
-        if self._remove_redundant_groups():
-            # opacity pushed down from a removed group is a fresh, unrounded product
-            self.round_floats(ndigits, inplace=True)
+        if drop_unsupported:
+            # elements dropped by the check may have emptied groups or been the
+            # last users of a gradient
+            self._tidy(ndigits)
 
         return self
+
+    def _tidy(self, ndigits: int):
+        while True:
+            self.round_floats(ndigits, inplace=True)
+            # https://github.com/googlefonts/picosvg/issues/269 remove empty subpaths *after* rounding
+            self.remove_empty_subpaths(inplace=True)
+            self.remove_unpainted_shapes(inplace=True)
+            # Dropping shapes can leave a group that was kept for its opacity with
+            # fewer than two children. Flattening it pushes its opacity down, and
+            # that fresh product needs rounding (and may stop a shape from painting)
+            if not self._remove_redundant_groups():
+                break
+        # shapes that went away (or were only templates in <defs>) may have been
+        # the last users of a gradient
+        self._remove_orphaned_gradients()
 
     def _remove_redundant_groups(self) -> bool:
         self._update_etree()
